@@ -467,6 +467,27 @@ func (g *c08Gen) addVeto(t *hTx) {
 	}
 }
 
+// blindOp builds an operation without looking at the database: random store, id and values
+func (g *c08Gen) blindOp() hOp {
+	store := g.pickStore()
+	id := g.ids[g.r.intn(len(g.ids))]
+	if g.r.chance(3) {
+		id = ""
+	}
+	switch k := g.r.intn(100); {
+	case k < 35:
+		op := hOp{Kind: "C", Store: store, Id: id}
+		g.fillFields(&op, nil)
+		return op
+	case k < 70:
+		op := hOp{Kind: "UP", Store: store, Id: id}
+		g.fillFields(&op, nil)
+		return op
+	default:
+		return hOp{Kind: "D", Store: store, Id: id}
+	}
+}
+
 func (g *c08Gen) genTx(facts []string) *hTx {
 	g.sh = shadowFromFacts(g.w, facts)
 	t := &hTx{Sys: g.r.chance(30)}
@@ -516,16 +537,9 @@ func (g *c08Gen) genTx(facts []string) *hTx {
 	}
 	if g.r.chance(7) {
 		// an operation built without looking at the database
-		old := &histGen{r: g.r, w: g.w, p: profileFor("c08"), ids: g.ids}
-		old.alive = map[string]map[string]bool{}
-		for _, s := range g.w.Stores {
-			if s.Parent == "" {
-				old.alive[s.Name] = map[string]bool{}
-			}
-		}
 		pos := g.r.intn(len(t.Ops) + 1)
 		ops := append([]hOp{}, t.Ops[:pos]...)
-		ops = append(ops, old.genOp())
+		ops = append(ops, g.blindOp())
 		t.Ops = append(ops, t.Ops[pos:]...)
 	}
 	return t
